@@ -78,6 +78,12 @@ CLAIMED.update({
          "Trusts: the hand-written parser and the expectation tables in sim/tsim/src/json_sim.rs; under seeded schedules later-recorded fields are judged by an allowed-outcome set (absent or any value recorded on that span).", "DESIGN.md 5 C14"),
 })
 
+CLAIMED.update({
+ "C18": ("log-sim", "deterministic simulation: seeded multi-thread histories with the two process-global one-shot events (log::set_logger, first dispatcher installation) placed at seeded positions, one fresh process per run, harness built with tracing's `log` feature; dispatch model + record-by-record expectations as oracle",
+         "Seeded exploration of both directions. log->tracing: LogTracer (ignore list, max level) installed at a seeded point, collectors with level x target-prefix filters scoped/global on 1-2 threads, log records of all levels with arbitrary targets/messages and present/absent file/line/module: exactly one event iff the thread's current collector accepts the record's own level and target (and the bridge may forward it), with message and normalized target/level/file/line/module equal to the record's. tracing->log: a recording logger with a seeded max level; events and span lifecycle steps before and after the first collector installation anywhere: exactly one log record each with the documented level/target and a text containing message and fields, none afterwards. Level conversion checked exhaustively at start-up. Sampling, not proof.",
+         "Trusts: the expectation tables in sim/tsim/src/log_sim.rs (documented level/target map of tracing's log output); histories are total orders.", "DESIGN.md 5 C18"),
+})
+
 NOT_BUILT = {
 }
 
